@@ -467,3 +467,31 @@ def gen_plain_doc(rng: random.Random) -> str:
     if rng.random() < 0.3:
         parts.append("## " + plain_sentence(rng).rstrip(".?!"))  # ends right after a heading
     return "\n\n".join(parts) + "\n"
+
+
+SENTENCE_POOL = [
+    "Yes.", "No.", "OK.", "Maybe so.", "Wait... what?", "It's \"fine\".",
+    "Short start then a considerably longer sentence that will need to be wrapped at most of the widths in use here.",
+    "Another sentence, e.g. with an abbreviation and a [link](https://example.com/x \"t\"), follows it.",
+    "A sentence with `inline code span` and **bold words** and a trailing colon:",
+    "The quick brown fox jumps over the lazy dog while seven wizards quietly observe the parser state!",
+    "Does a question mark end it? It does.", "Tiny one.",
+]
+
+
+def gen_sentence_mix(rng: random.Random) -> str:
+    """The same sentences in a different order / paragraph split each time: identical fragments
+    recur across calls in different neighbourhoods (a memo keyed on too little shows here)."""
+    k = rng.randint(4, 9)
+    sents = [rng.choice(SENTENCE_POOL) for _ in range(k)]
+    paras, cur = [], []
+    for sn in sents:
+        cur.append(sn)
+        if rng.random() < 0.25:
+            paras.append(" ".join(cur))
+            cur = []
+    if cur:
+        paras.append(" ".join(cur))
+    if rng.random() < 0.3:
+        paras = ["- " + p for p in paras]
+    return "\n\n".join(paras) + "\n"
